@@ -94,6 +94,21 @@ def run(ctx):
         why = canonical_ok(impl["ok"], notes, cols)
         if why:
             res.violation(case, "not canonical: " + why, text=impl["ok"][:400]); continue
+        # the stream may be a NoteData object itself (it is an iterable of notes), also one whose own text is not canonical:
+        # every row followed by a blank row, a blank measure appended - the same notes, so the same canonical text comes out
+        blank = "0" * cols + "\n"
+        loose = "&\n".join(",\n".join("".join(r + "\n" + blank for r in m.split("\n")[:-1]) for m in sec.split(",\n")) for sec in impl["ok"].split("&\n"))
+        loose += ",\n" + blank * 4
+        try:
+            nd3 = NoteData(loose)
+            if [gen.jnote(n) for n in nd3] == notes:
+                res.count("noncanonical_object_as_stream")
+                via_obj = str(NoteData.from_notes(nd3, cols))
+                if via_obj != impl["ok"]:
+                    res.violation(dict(case, stream="a NoteData object whose text has doubled rows and a trailing blank measure"),
+                                  "from_notes of a note data object is not the canonical text of its notes", impl=via_obj[:300], expected=impl["ok"][:300]); continue
+        except Exception as e:
+            res.violation(case, "from_notes of a note data object raised", impl=core.exc_name(e)); continue
         again = impl_encode(impl["back"], impl["cols"])
         if again.get("ok") != impl["ok"]:
             res.violation(case, "re-encoding the decoded notes changes the text")
